@@ -45,8 +45,12 @@ CHECKS.update({
             "Symbolic AEAD: a modified ciphertext opens under no key.", "6/C07"),
  "C09": env("Secret creation/release traces must equal the model's (release compared as a set per operation); no use after release, no double release, nothing live with caching disabled, nothing live after teardown.",
             "Known finding C09-J (system key looked up on parent mismatch is never released).", "6/C09"),
- "C10": env("Every buffer returned by AEAD/KMS key-unwrapping calls and every buffer passed to a failing SecretFactory.New is re-read after the public call returns and must be all zero.",
-            "Partial: the AWS plugins' buffers are covered by the C17 harness; the model has no byte-level buffer table yet (monitor decides).", "6/C10"),
+ "C10": env("Coq theorems on a statement-level model of the unwrapping sites (decryptRow, systemKeyFromEKR, intermediateKeyFromEKR, NewCryptoKey, both AWS plugins' EncryptKey/DecryptKey): for EVERY choice of "
+            "failing later steps and every list of regions, every buffer that held key plaintext is zero at return (except the system-key buffer handed to the caller, wiped by NewCryptoKey on both outcomes). "
+            "Decided on the code by a monitor: every buffer returned by AEAD/KMS key-unwrapping calls and every buffer passed to a failing SecretFactory.New is re-read after the public call returns, under fault "
+            "plans (env harness), and the regional KMS fakes re-read the data-key plaintext after EncryptKey/DecryptKey of both AWS plugins.",
+            "Partial: the wipe model is not executable against the code (buffers are not part of the envelope model's trace); the tie is the monitor under the same failure choices plus the ADec/KDec/SNew event "
+            "correspondence that fixes where such buffers come into existence.", "6/C10", technique="Coq proof (case analysis over failure choices / induction over regions) + buffer re-read monitor under fault plans"),
  "C20": env("Metastore/KMS call traces must equal the model's; with simple caches no key record is re-read and no system key re-unwrapped within one interval of its last load; with caching disabled every operation re-reads and nothing stays live.",
             "Restricted to keys valid at the time (the revoked-latest corner must consult the metastore).", "6/C20"),
 })
